@@ -408,29 +408,36 @@ pub(crate) fn validate_channelmodes<'a>(
     })
 }
 
-fn starts_single_wilcards<'a>(pattern: &'a str, text: &'a str) -> bool {
+fn starts_single_wilcards(pattern: &[char], text: &[char]) -> bool {
     if pattern.len() <= text.len() {
         pattern
-            .bytes()
+            .iter()
             .enumerate()
-            .all(|(i, c)| c == b'?' || c == text.as_bytes()[i])
+            .all(|(i, c)| *c == '?' || *c == text[i])
     } else {
         false
     }
 }
 
 pub(crate) fn match_wildcard<'a>(pattern: &'a str, text: &'a str) -> bool {
-    let mut pat = pattern;
-    let mut t = text;
+    // match characters, not bytes: '?' stands for exactly one character
+    let pattern = pattern.chars().collect::<Vec<_>>();
+    let text = text.chars().collect::<Vec<_>>();
+    let mut pat = &pattern[..];
+    let mut t = &text[..];
     let mut asterisk = false;
     while !pat.is_empty() {
-        let (newpat, m, cur_ast) = if let Some(i) = pat.find('*') {
+        let (newpat, m, cur_ast) = if let Some(i) = pat.iter().position(|c| *c == '*') {
             (&pat[i + 1..], &pat[..i], true)
         } else {
             (&pat[pat.len()..pat.len()], pat, false)
         };
 
         if !m.is_empty() {
+            // literal run longer than the rest of text can not match
+            if m.len() > t.len() {
+                return false;
+            }
             if !asterisk {
                 // if first match
                 if !starts_single_wilcards(m, t) {
@@ -464,7 +471,7 @@ pub(crate) fn match_wildcard<'a>(pattern: &'a str, text: &'a str) -> bool {
         pat = newpat;
     }
     // if last character in pattern is '*' or text has been fully consumed
-    (!pattern.is_empty() && pattern.as_bytes()[pattern.len() - 1] == b'*') || t.is_empty()
+    (!pattern.is_empty() && pattern[pattern.len() - 1] == '*') || t.is_empty()
 }
 
 // normalize source mask - for example '*' to '*!*@*'
